@@ -303,6 +303,25 @@ func extractC13(repo, genDir string) error {
 		}
 	}
 	sort.Strings(writers)
+	// Run.interrupt: which options turn the interrupt into a debugger request
+	maskConst, maskCond, maskThen, maskElse := "", "", "", ""
+	ast.Inspect(intr.Body, func(n ast.Node) bool {
+		switch x := n.(type) {
+		case *ast.ValueSpec:
+			if len(x.Names) == 1 && x.Names[0].Name == "CtrlCDebug" && len(x.Values) == 1 {
+				maskConst = c13src(fset, x.Values[0])
+			}
+		case *ast.IfStmt:
+			if maskCond == "" {
+				maskCond = c13src(fset, x.Cond)
+				maskThen = c13src(fset, x.Body)
+				if x.Else != nil {
+					maskElse = c13src(fset, x.Else)
+				}
+			}
+		}
+		return true
+	})
 	var b strings.Builder
 	b.WriteString("-- REGENERATED by harness/c13.go (extractC13) from fast/code.go, fast/repl.go, base/*.go. Do not edit.\n")
 	b.WriteString("import Model.Interrupt\nnamespace Gen.ExecLoop\nopen Interrupt\n\n")
@@ -312,6 +331,7 @@ func extractC13(repo, genDir string) error {
 	fmt.Fprintf(&b, "/-- `exec` hands over to `reExecWithFlags` when `run.ExecFlags != 0` -/\ndef execDelegates : Bool := %v\n\n", delegates)
 	fmt.Fprintf(&b, "/-- `applyAsyncSignal` first stores `SigNone` into `Async` -/\ndef applyClears : Bool := %v\n\n", applyClears)
 	fmt.Fprintf(&b, "/-- the default arm of `applyAsyncSignal` is `panic(base.SigInterrupt)` -/\ndef applyPanics : Bool := %v\n\n", applyPanics)
+	fmt.Fprintf(&b, "/-- `Run.interrupt()`: the option mask, the test that selects `SigDebug`, and both arms -/\ndef interruptMask : String := %q\ndef interruptCond : String := %q\ndef interruptThen : String := %q\ndef interruptElse : String := %q\n\n", maskConst, maskCond, maskThen, maskElse)
 	b.WriteString("/-- every assignment to a field `Async` / `Signals` in the non-test sources: (file:function, field, right-hand side) -/\n")
 	fmt.Fprintf(&b, "def asyncWriters : List (String × String × String) :=\n  [%s]\n\nend Gen.ExecLoop\n", strings.Join(writers, ",\n   "))
 	return os.WriteFile(filepath.Join(genDir, "ExecLoop.lean"), []byte(b.String()), 0o644)
@@ -381,6 +401,33 @@ var c13 struct {
 	req    atomic.Bool  // set by the interrupter after Interp.Interrupt returned
 	start  atomic.Bool  // set by the first hook call of an asynchronous run
 	areq   int          // hook calls made after the request was observed
+	atCalls int         // calls of the scripted debugger
+	run     *fast.Run   // the interpreter's Run (exported bookkeeping), read after an interrupted evaluation
+}
+
+// scripted debugger of the option runs: counts, and terminates the evaluation
+type c13dbg struct{}
+
+var c13kill interface{} = "dbg-kill"
+
+func (c13dbg) Breakpoint(ir *fast.Interp, env *fast.Env) fast.DebugOp {
+	c13.atCalls++
+	return fast.DebugOp{Depth: 0, Panic: &c13kill}
+}
+func (c13dbg) At(ir *fast.Interp, env *fast.Env) fast.DebugOp {
+	c13.atCalls++
+	return fast.DebugOp{Depth: 0, Panic: &c13kill}
+}
+
+func c13options(mask int) base.Options {
+	var o base.Options
+	if mask&1 != 0 {
+		o |= base.OptDebugger
+	}
+	if mask&2 != 0 {
+		o |= base.OptCtrlCEnterDebugger
+	}
+	return o
 }
 
 func c13hook() {
@@ -436,8 +483,14 @@ var c13battery = []string{
 
 const c13common = `import "fmt"; var cnt int; func counter() int { cnt++; return cnt }; ` + c13chk
 
-func c13new(sh *c13shape) *fast.Interp {
+func c13new(sh *c13shape) *fast.Interp { return c13newOpt(sh, 0, false) }
+
+func c13newOpt(sh *c13shape, mask int, dbg bool) *fast.Interp {
 	ir := newQuietInterp()
+	ir.Comp.Globals.Options |= c13options(mask)
+	if dbg {
+		ir.SetDebugger(c13dbg{})
+	}
 	ir.DeclFunc("hook", c13hook)
 	ir.DeclFunc("hv", c13hv)
 	ir.DeclFunc("hookd", c13hookd)
@@ -473,6 +526,10 @@ func c13eval(ir *fast.Interp, src string) (end string) {
 			case string:
 				if v == "runaway" {
 					end = "runaway"
+					return
+				}
+				if v == "dbg-kill" {
+					end = "dbgkill"
 					return
 				}
 			}
@@ -516,6 +573,7 @@ func c13exec(op string) Result {
 		fresh := c13new(sh)
 		c13.fresh = c13runBattery(fresh)
 		c13.ir = c13new(sh)
+		c13.run = c13.ir.PrepareEnv().Run
 		return Result{Out: "ok", Tags: []string{"reset"}}
 	case "run":
 		// run <shape> <K> <desc>
@@ -546,11 +604,72 @@ func c13exec(op string) Result {
 		case k == 0 && end != "normal":
 			r.Viol, r.Key = "uninterrupted evaluation ended with "+end, "spurious-interrupt"
 		}
+		if r.Viol == "" && end == "interrupt" && s.run != nil && s.run.Signals.Async != base.SigNone {
+			// raising the interrupt consumes it: a signal left pending would abort deferred clean-up functions and
+			// interpreted functions called directly by compiled code before the next evaluation
+			r.Viol = fmt.Sprintf("shape %s: after the interrupt panic Signals.Async is still %v", sh.name, s.run.Signals.Async)
+			r.Key = "async-left-pending-after-interrupt"
+		}
 		if !inProperty {
 			r.Tags = append(r.Tags, "outside-property")
 		}
 		if s.after > c13Bound {
 			r.Tags = append(r.Tags, "overshoot>15-consecutive-defers")
+		}
+		if r.Viol == "" {
+			c13checkBattery(&r)
+		}
+		return r
+	case "resetopt":
+		// resetopt <shape> <mask> <dbg>
+		fs := strings.Fields(arg)
+		if len(fs) != 3 || c13shapeByName(fs[0]) == nil {
+			return Result{Out: "bad-op"}
+		}
+		sh := c13shapeByName(fs[0])
+		mask, _ := strconv.Atoi(fs[1])
+		c13.shape, c13.async, c13.k = sh, false, 0
+		c13.fresh = c13runBattery(c13newOpt(sh, mask, fs[2] == "1"))
+		c13.ir = c13newOpt(sh, mask, fs[2] == "1")
+		c13.run = c13.ir.PrepareEnv().Run
+		return Result{Out: "ok", Tags: []string{"resetopt"}}
+	case "runopt":
+		// runopt <shape> <K> <mask> <dbg> <desc>: as run, interpreter options per mask (1 = OptDebugger, 2 = OptCtrlCEnterDebugger)
+		fs := strings.SplitN(arg, " ", 5)
+		sh := c13.shape
+		if len(fs) != 5 || sh == nil || sh.name != fs[0] {
+			return Result{Out: "bad-op"}
+		}
+		k, _ := strconv.Atoi(fs[1])
+		mask, _ := strconv.Atoi(fs[2])
+		s := &c13
+		s.async, s.calls, s.after, s.dafter, s.fired, s.k, s.atCalls = false, 0, 0, 0, false, k, 0
+		end := c13eval(s.ir, sh.call)
+		r := Result{Nontrivial: true, Tags: []string{fmt.Sprintf("runopt-mask%d-dbg%s", mask, fs[3]), "end-" + strings.SplitN(end, ":", 2)[0]}}
+		if mask == 3 {
+			// documented: with OptDebugger AND OptCtrlCEnterDebugger the interrupt enters the debugger
+			r.Out = "end=debugger"
+			if end != "dbgkill" || s.atCalls == 0 {
+				r.Out = fmt.Sprintf("end=%s at=%d", end, s.atCalls)
+				r.Viol = fmt.Sprintf("shape %s, OptDebugger|OptCtrlCEnterDebugger: interrupt in hook call %d did not enter the debugger (end %q, %d debugger calls)", sh.name, k, end, s.atCalls)
+				r.Key = "ctrlc-does-not-enter-debugger"
+			} else if s.after > c13Bound+sh.drun {
+				r.Viol = fmt.Sprintf("shape %s: debugger entered only after %d hook statements", sh.name, s.after)
+				r.Key = "overshoot-debugger-" + sh.name
+			}
+		} else {
+			r.Out = fmt.Sprintf("after=%d dafter=%d calls=%d end=%s", s.after, s.dafter, s.calls, end)
+			switch {
+			case end != "interrupt":
+				r.Viol = fmt.Sprintf("shape %s, options mask %d (1=OptDebugger 2=OptCtrlCEnterDebugger), debugger installed=%s: interrupt delivered in hook call %d, evaluation ended with %q (%d debugger calls)", sh.name, mask, fs[3], k, end, s.atCalls)
+				r.Key = fmt.Sprintf("not-interrupted-options-mask%d", mask)
+			case s.after > c13Bound+sh.drun:
+				r.Viol = fmt.Sprintf("shape %s, options mask %d: %d hook statements after the interrupt", sh.name, mask, s.after)
+				r.Key = "overshoot-" + sh.name
+			case s.atCalls != 0:
+				r.Viol = fmt.Sprintf("shape %s, options mask %d: the debugger was entered %d times", sh.name, mask, s.atCalls)
+				r.Key = fmt.Sprintf("debugger-entered-options-mask%d", mask)
+			}
 		}
 		if r.Viol == "" {
 			c13checkBattery(&r)
@@ -733,6 +852,33 @@ func c13gen(r *rand.Rand, tier string, emit func(string)) {
 		if sh.kmax == 0 && sh.kmin == 0 {
 			for j := 0; j < nasync; j++ {
 				emit(fmt.Sprintf("async %s %d", sh.name, r.Intn(3000)))
+			}
+		}
+	}
+	// interrupts under the four combinations of OptDebugger / OptCtrlCEnterDebugger, with and without a debugger
+	for _, name := range []string{"straight", "forever", "nested3", "for3"} {
+		sh := c13shapeByName(name)
+		for mask := 0; mask <= 3; mask++ {
+			for _, dbg := range []string{"0", "1"} {
+				if mask == 3 && dbg == "0" {
+					continue // no debugger to enter: the stub debugger resumes execution
+				}
+				emit(fmt.Sprintf("resetopt %s %d %s", name, mask, dbg))
+				ks := []int{}
+				for k := 1; k <= 16; k++ {
+					ks = append(ks, k)
+				}
+				for k := 70; k <= 86; k++ {
+					ks = append(ks, k)
+				}
+				if tier == "thorough" {
+					for k := 17; k < 70; k++ {
+						ks = append(ks, k)
+					}
+				}
+				for _, k := range ks {
+					emit(fmt.Sprintf("runopt %s %d %d %s %s", name, k, mask, dbg, sh.desc))
+				}
 			}
 		}
 	}
